@@ -7,7 +7,10 @@ After the script every remaining pool slot is dropped in order.
 Output per op: result row [code ok new-slot] and observation row [times the caller's waker was woken; clones of the caller's
 waker currently held = Arc::strong_count - baseline].
 Monitor: wakes == number of successful wake ops; zero clones held after all foreign wakers are gone; the caller's Arc count is
-back to its baseline; allocator (no double free, no leak)."""
+back to its baseline; allocator (no double free, no leak).
+'119 <threads> | history': the history runs as above; then every thread receives a clone of each retained waker and replays, concurrently with the others, the
+clone / wake / wake_by_ref / drop operations of the history on its own copies and releases what it still holds; output: the final observation row only, compared
+with the model's final observation on one linearisation of the same operations (see model_line)."""
 PROP = "C19"
 PROP_V = "props/C19.v"
 HARNESS = "rt"
@@ -19,7 +22,7 @@ TRUSTED = [
     "tarc::BaseArc (count atomicity, drop at zero), core::task::Waker vtable dispatch",
     "harness/rt: counting Arc<impl Wake> as the caller's waker",
 ]
-ASSUMPTIONS = ["memory-model effects of cross-thread wakes are not modelled (thread runs are sampled in the thorough tier only)"]
+ASSUMPTIONS = ["memory-model effects of cross-thread wakes are not modelled: the threaded runs (case id 119) compare final counts only, against one linearisation"]
 
 
 def line(ops):
@@ -76,7 +79,71 @@ def gen_cases(rng, tier):
     d = {"exhaustive_len": ex + 1, "exhaustive_cases": len(cases), "random": nrand, "random_maxlen": maxlen}
     for _ in range(nrand):
         cases.append(random_script(rng, maxlen))
+    # operations issued from other threads on wakers retained after the poll returned
+    nthr = {"quick": 250, "search": 300}.get(tier, 3000)
+    r2 = rng.fork("threads")
+    for k in range(nthr):
+        body = random_script(r2, 25 if tier == "quick" else 60).split("|", 1)[1].strip()
+        cases.append("119 %d | %s" % (r2.choice([2, 3, 4, 8]), body))
+    d["threaded_histories"] = nthr
     return cases, d
+
+
+def _sim(ops):
+    """liveness of the pool slots after a history (ops 0 and 2 add a slot, 3 and 5 kill one)"""
+    live = []
+    for o in ops:
+        c = o[0]
+        h = o[1] if len(o) > 1 else -1
+        ok = 0 <= h < len(live) and live[h]
+        if c == 0:
+            live.append(True)
+        elif c == 2 and ok:
+            live.append(True)
+        elif c in (3, 5) and ok:
+            live[h] = False
+    return live
+
+
+def model_line(l):
+    """'119 T | H': the model is run on ONE linearisation — H, then for every thread: a clone of every retained waker, the thread's part of the
+    script (the clone/wake/wake_by_ref/drop operations of H, slot numbers translated to the thread's copies) and the release of what it still holds;
+    wake counts and clone counts are sums, so the final observation is the same for every interleaving"""
+    if not l.startswith("119 "):
+        return l
+    hdr, body = l.split("|", 1)
+    T = int(hdr.split()[1])
+    ops = [[int(x) for x in o.split()] for o in body.split(";") if o.strip()]
+    snap = _sim(ops)
+    n = len(snap)
+    out = [list(o) for o in ops]
+    script = [o for o in ops if o[0] in (2, 3, 4, 5)]
+    for _ in range(T):
+        tl, mp = [], []
+        for i, lv in enumerate(snap):
+            tl.append(lv)
+            if lv:
+                out.append([2, i]); mp.append(n); n += 1
+            else:
+                mp.append(i)
+        for c, h in script:
+            if not (0 <= h < len(tl) and tl[h]):
+                continue
+            out.append([c, mp[h]])
+            if c == 2:
+                tl.append(True); mp.append(n); n += 1
+            elif c in (3, 5):
+                tl[h] = False
+        for h, lv in enumerate(tl):
+            if lv:
+                out.append([5, mp[h]])
+    return line(out)
+
+
+def compare(l, impl_rows, model_rows):
+    if not l.startswith("119 "):
+        return impl_rows == model_rows
+    return impl_rows.strip() == model_rows.split(";")[-1].strip()
 
 
 def nontrivial(l):
